@@ -24,6 +24,10 @@ def family(rng, n, mode):
         e = [-rng.randint(8, 20) for _ in range(n)]
     elif mode == "bic":
         e = [rng.randint(6, 16) for _ in range(n)] if rng.random() < 0.5 else [-rng.randint(4, 14) for _ in range(n)]
+    elif mode == "bic_over":                 # determinant overflows a double for n >= ~100
+        e = [rng.randint(8, 16) for _ in range(n)]
+    elif mode == "bic_under":                # determinant underflows a double for n >= ~100
+        e = [-rng.randint(8, 16) for _ in range(n)]
     else:
         e = [rng.randint(-6, 6) for _ in range(n)]
     L = np.eye(n)
@@ -109,7 +113,8 @@ def bic_job(job):
     common.use_repo()
     from fast_ticc.containers import arguments, model_state
     from fast_ticc import cluster_metrics
-    n, K, T, seed = job
+    n, K, T, seed = job[:4]
+    fam = job[4] if len(job) > 4 else "bic"
     rng = random.Random(seed)
     args = arguments.UserArguments(sparsity_weight=0.1, iteration_limit=3, label_switching_cost=1.0,
                                    min_cluster_size=1, min_meaningful_covariance=0, num_clusters=K,
@@ -122,7 +127,7 @@ def bic_job(job):
     model.point_labels = list(labels)
     counts, sumE, trL = [], [], []
     for k in range(K):
-        f = family(rng, n, "bic")
+        f = family(rng, n, fam)
         S = np.eye(n) * rng.randint(1, 3)
         for _ in range(min(n, 4)):
             i, j = rng.randrange(n), rng.randrange(n)
